@@ -470,6 +470,8 @@ pub struct Sim {
     pub base_denoms: Vec<String>,
     pub fault: Rc<Cell<i64>>,
     pub bank_calls: Rc<Cell<i64>>,
+    /// amounts reported by the last accepted direct Swap (event attributes): return, slippage, swap/protocol/burn/extra fees
+    pub last_swap_attrs: Option<Vec<u128>>,
 }
 
 fn rcoin(c: &SCoin, s: &Sim) -> Coin {
@@ -581,7 +583,7 @@ impl Sim {
             &[],
         )
         .ok()?;
-        Some(Sim { app, users, em, fc, pm, fm, base_denoms: g.base_denoms.clone(), fault, bank_calls: calls })
+        Some(Sim { app, users, em, fc, pm, fm, base_denoms: g.base_denoms.clone(), fault, bank_calls: calls, last_swap_attrs: None })
     }
 
     pub fn real_addr(&self, s: &str) -> String {
@@ -668,6 +670,19 @@ impl Sim {
                 guarded(|| self.app.execute_contract(sender_a, target_a, &m, &f))
             }
         };
+        self.last_swap_attrs = None;
+        if let (SMsg::PmSwap { .. }, Some(Ok(resp))) = (msg, &r) {
+            // the amounts the swap itself reports (first wasm event of the pool manager with action = swap)
+            for e in resp.events.iter().filter(|e| e.ty == "wasm") {
+                let get = |k: &str| e.attributes.iter().find(|a| a.key == k).map(|a| a.value.clone());
+                if get("action").as_deref() == Some("swap") {
+                    let keys = ["return_amount", "slippage_amount", "swap_fee_amount", "protocol_fee_amount", "burn_fee_amount", "extra_fees_amount"];
+                    let vals: Vec<u128> = keys.iter().filter_map(|k| get(k).and_then(|v| v.parse::<u128>().ok())).collect();
+                    if vals.len() == keys.len() { self.last_swap_attrs = Some(vals); }
+                    break;
+                }
+            }
+        }
         matches!(r, Some(Ok(_)))
     }
 
